@@ -63,7 +63,7 @@ func TestVerifC32(t *testing.T) {
 	rec := kit.Start(t, "C32", "copy")
 	defer rec.Finish()
 	env := rec.Env
-	n := env.Pick(16, 300)
+	n := env.Pick(16, 96)
 	for i := 0; i < n; i++ {
 		if !env.Mine(i) {
 			continue
@@ -541,7 +541,7 @@ func c32Run(t *testing.T, rec *kit.Rec, c *c32Case, rng *kit.RNG) {
 	} else {
 		pr := rec.RNG("faultpos", c.Idx)
 		seen := map[int]bool{}
-		for len(positions) < 5 && len(positions) < len(muts) {
+		for len(positions) < 4 && len(positions) < len(muts) {
 			k := pr.Range(1, len(muts))
 			if !seen[k] {
 				seen[k] = true
